@@ -185,21 +185,25 @@ def _ops():
         lx.default_initialization()
 
     def second_lexer():
-        # a caller's own Lexer objects (and a subclass), configured differently, next to the default one
+        # a caller's own Lexer objects (and a subclass), configured differently and used, next to the default one
+        lexer.Lexer.get_default_instance()
         l2 = lexer.Lexer()
         l2.clear()
-        l3 = lexer.Lexer()
-        l3.default_initialization()
-        l3.add_keywords({'FOO': T.Keyword, 'MAP': T.Name.Builtin, 'SELECT': T.Name})
-        l3.set_SQL_REGEX(keywords.SQL_REGEX[:20])
 
         class MyLexer(lexer.Lexer):
             pass
         l4 = MyLexer()
         l4.default_initialization()
         l4.clear()
-        list(l3.get_tokens('select foo, map from bar'))
-        held.extend([l2, l3, l4])
+        l5 = lexer.Lexer()
+        l5.clear()
+        l5.set_SQL_REGEX(keywords.SQL_REGEX[:20])
+        list(l5.get_tokens('select foo, map from bar'))
+        l3 = lexer.Lexer()
+        l3.default_initialization()
+        l3.add_keywords({'FOO': T.Keyword, 'MAP': T.Name.Builtin, 'SELECT': T.Name, 'BAR': T.Keyword.DML})
+        list(l3.get_tokens('select foo, map from bar where x like 1 limit 2; create table t (c int)'))
+        held.extend([l2, l3, l4, l5])
 
     def cli_main():
         from sqlparse import cli
@@ -287,9 +291,16 @@ def histories_part(tier, seed, ref):
         if h:
             transitions.add((dig_of.get(h[:-1]), h[-1], r['digest']))
     extra = 0
-    while frontier:
+    cap = 1500 if tier == 'quick' else 20000
+    capped = False
+    while frontier and not capped:
         nxt = []
         for h in frontier:
+            if extra >= cap:
+                # a tree whose global state keeps growing (e.g. a cache keyed by input) has no small quotient graph:
+                # stop, say so in the evidence; the histories explored so far are still judged one by one
+                capped = True
+                break
             for n in names:
                 r = run_history_forked(h + (n,), ref)
                 extra += 1
@@ -308,7 +319,7 @@ def histories_part(tier, seed, ref):
             viols.append({'kind': 'history-changes-results', 'sig': 'after:' + culprit, 'history': list(h),
                           'text': ' ; '.join(h), 'detail': r.get('error') or r.get('diff'), 'size': len(h)})
     return {'histories': len(hists), 'depth': depth, 'operations': names, 'states': len(states),
-            'transitions': len(transitions), 'fixpoint_extra_runs': extra,
+            'transitions': len(transitions), 'fixpoint_extra_runs': extra, 'fixpoint_capped': capped,
             'state_examples': {d: list(h) for d, h in list(states.items())[:6]}}, viols
 
 
@@ -654,7 +665,8 @@ def run(tier, seed):
         'samples': [{'history': ['parse-raises', 'reconfigure-and-reset', 'stream-suspended']},
                     {'schedule': 'thread 0 preempted after get_default_instance:53, thread 1 runs until it blocks on the lock'}],
         'histories': hinfo, 'init_race': race, 'concurrent_calls': cc, 'lazy_streams': linfo, 'frame_condition': fc,
-        'schedules_explored': total_exec, 'timing_s': timing, 'exhaustive': not any(s['capped'] for s in race.values()),
+        'schedules_explored': total_exec, 'timing_s': timing,
+        'exhaustive': not any(s['capped'] for s in race.values()) and not hinfo['fixpoint_capped'],
         'explanation': 'E6: every history of <= d operations from an 18-operation alphabet (each in a forked child of a warm '
                        'parent), plus BFS over the digest-quotient graph of global states to fixpoint; in every state the '
                        'probe suite must return exactly what a fresh interpreter returns. E5: all interleavings of 2-3 real '
